@@ -137,6 +137,9 @@ OutRtcpStep(x, pks) == Fold(LAMBDA a, pk : OutPktStep(a, pk), x, pks)
 Put(st, s, x) == [t \in DOMAIN st \cup {s} |-> IF t = s THEN x ELSE st[t]]
 SysStep(st, e) ==
   CASE e.a = "bind" -> IF e.s \in DOMAIN st THEN st ELSE Put(st, e.s, Fresh(e.s, e.rate))
+    \* (as found, recorded finding C11.StatsNeverUnbinds: the interceptor has no Unbind*, the recorder and its counters stay;
+    \*  the statistics remain a recount of ALL the traffic observed for the SSRC, across Unbind and a second Bind)
+    [] e.a = "unbind" -> st
     [] e.a = "irtp" -> IF e.s \in DOMAIN st THEN Put(st, e.s, InRtpStep(st[e.s], e.p, e.w, e.hl, e.pl, e.now)) ELSE st
     [] e.a = "ortp" -> IF e.s \in DOMAIN st THEN Put(st, e.s, OutRtpStep(st[e.s], e.p, e.w, e.hl, e.pl)) ELSE st
     [] e.a = "ircp" -> [s \in DOMAIN st |-> InRtcpStep(st[s], e.pk, e.now)]
